@@ -783,9 +783,9 @@ func c19Faults(g *Gen, tg *c19Target, a []byte, visit func(kind int, name string
 			visit(c19pattern, "pattern", b)
 		}
 	}
-	if n == 32 {
+	if n == 32 || n == 64 || n == 80 || n == 96 {
 		// boundary values of the two public moduli, p = 2^255 - 19 (RFC 7748 / 8032) and the group order L, as a
-		// 32-byte little-endian string, with bit 255 clear and set: p-3 .. p+21 covers -1, 0, 1 and every value
+		// 32-byte little-endian field, with bit 255 clear and set: p-3 .. p+21 covers -1, 0, 1 and every value
 		// that has a second (non-canonical) encoding below 2^255; likewise around L, 2^252, 2^255 and 0
 		one := big.NewInt(1)
 		bases := []*big.Int{new(big.Int), fieldP, model.GroupL, new(big.Int).Lsh(one, 252), new(big.Int).Lsh(one, 255), new(big.Int).Lsh(model.GroupL, 3)}
@@ -795,12 +795,23 @@ func c19Faults(g *Gen, tg *c19Target, a []byte, visit func(kind int, name string
 				if v.Sign() < 0 || v.BitLen() > 256 {
 					continue
 				}
-				b := leBytes32(v)
-				visit(c19special, "modulus-boundary", b)
-				if b[31]&0x80 == 0 {
-					b2 := clone(b)
-					b2[31] |= 0x80
-					visit(c19special, "modulus-boundary", b2)
+				f := leBytes32(v)
+				// ... written over each 32-byte field of the artifact: the first, the last, and the declared scalar fields
+				offs := append([]int{0, n - 32}, tg.scalarAt...)
+				seen := map[int]bool{}
+				for _, off := range offs {
+					if off < 0 || off+32 > n || seen[off] {
+						continue
+					}
+					seen[off] = true
+					b := clone(a)
+					copy(b[off:], f)
+					visit(c19special, "modulus-boundary", b)
+					if f[31]&0x80 == 0 {
+						b2 := clone(b)
+						b2[off+31] |= 0x80
+						visit(c19special, "modulus-boundary", b2)
+					}
 				}
 			}
 		}
